@@ -96,6 +96,10 @@ func (c *ClusterNode) syncUserCollections() error {
 				errs <- fmt.Errorf("failed to send all user collections to %s: %w", dest, err)
 				return
 			}
+			if err := verifPoint("records-confirmed", 0); err != nil {
+				errs <- err
+				return
+			}
 			// Now clean up the user collections we have sent. They live happily
 			// ever after on their new server.
 			err := c.nodedb.Write(func(bm diskstore.BucketManager) error {
@@ -184,6 +188,9 @@ func (c *ClusterNode) sendShardFile(destination string, path string) error {
 			}
 			if checksum != rpcResp.Checksum {
 				return fmt.Errorf("checksum mismatch after sending shard file: %w", err)
+			}
+			if err := verifPoint("shard-confirmed", 0); err != nil {
+				return err
 			}
 			// Good, good so far. We know we have the file safely
 			// delivered, we can now clean up the shard directory.
